@@ -35,6 +35,10 @@ chk("C10",
     "Stateless model checking of the real Linter.LintFiles under a controlled scheduler: 6 scenarios (shared local action, caller+callee reusable workflow with AST- vs file-derived interface, sibling and nested repositories with different configurations, messages built from shared slices, broken shared callees, -format) x every subset and argument order of the files x semaphore size {1,2} x all interleavings up to 2 preemptions (thorough 3); oracle: per-file diagnostics equal LintFile alone on a fresh Linter, defects of a shared callee exactly once per run, deep fingerprint of all package-level tables and every Config unchanged (AllWebhookTypes at every scheduling point), no deadlock.",
     "Data races proper are outside a cooperative scheduler's reach: the 'no data races' clause is only supported by the modification monitor plus a separate free-running -race pass, not decided. GOMAXPROCS is subsumed by interleavings under data-race freedom. Scenarios are a fixed catalogue of 6 drivers." + OVERLAY_NOTE,
     "controlled-scheduler stateless DFS with preemption bounding + happens-before state caching, differential oracle")
+chk("C12",
+    "Complete enumeration of the finite space (table key or no key) x (12 contexts + 5 special functions) x 4 embeddings: every non-exempt scalar value position of the 4 maximal seeds (all 34 keys of the availability table are reached, plus every position governed by no key) gets each name spliced in bare, upper-cased, nested and call-argument form; the real Linter's 'not allowed here' verdict at that position must equal the transcription of GitHub's context-availability table.",
+    "The oracle is the transcription of GitHub's table frozen in lib_catalogue.go (cross-read once against the documentation-generated availability.go); which key governs a position comes from the documentation-derived schema; for `jobs` outside workflow_call outputs 'undefined variable' counts as the report." + OVERLAY_NOTE,
+    "complete enumeration of a finite product vs transcribed table")
 chk("C13",
     "Bounded-exhaustive exploration over the schema-derived catalogue: every mapping node of the 4 maximal seeds (every section of the workflow syntax) x {foreign key inserted first/middle/last, every existing key duplicated verbatim and re-cased, every mandatory key removed} x {alone, combined with a malformed placeholder in each direct sibling scalar}; each mutated workflow linted by the real Linter; oracle from the documentation-derived schema: report at the foreign key (schedule: at the item), at the repetition, a diagnostic naming the removed key, and the sibling's own diagnostic survives.",
     "One occurrence of each section (the seeds); block-style mappings; foreign keys are not asserted for open mappings; event names under on: are left to the events rule." + OVERLAY_NOTE,
